@@ -402,6 +402,12 @@ class ManifestFile:
                     openpgp_data += line
                 # skip header lines up to the empty line
                 if line.strip():
+                    # we always undo dash-escaping, so the signature
+                    # would not cover what we read
+                    if line.startswith('NotDashEscaped:'):
+                        raise ManifestSyntaxError(
+                            'NotDashEscaped OpenPGP messages are not '
+                            'supported')
                     continue
                 state = ManifestState.SIGNED_DATA
             elif state == ManifestState.SIGNED_DATA:
